@@ -2,8 +2,8 @@
 
 use toodee::{TooDeeOps, TooDeeOpsMut};
 
-use super::recv::{diff_parent, model_of_kt, parent_kt, receivers, splice, Kt, Recv};
-use crate::engine::util::huge_fixed;
+use super::recv::{diff_parent, model_of_kt, parent_kt, receivers, splice, Kt, Nest, Recv};
+use crate::engine::util::{huge_fixed, huge_for_mul};
 use crate::engine::{guarded, Ctx, Profile, Prop, Tier};
 use crate::with_recv;
 
@@ -38,7 +38,7 @@ impl Prop for C13P {
             Tier::Quick => vec![(n, n), (1, n), (n, 1)],
             Tier::Thorough => vec![(n, n), (1, n), (n, 1), (2, 3), (3, 2)],
         };
-        let mut v: Vec<String> = receivers(n, true, tier == Tier::Thorough, &parents).iter().map(|r| r.enc()).collect();
+        let mut v: Vec<String> = receivers(n, true, if tier == Tier::Thorough { Nest::All } else { Nest::Sample }, &parents).iter().map(|r| r.enc()).collect();
         for (c, r) in crate::engine::util::shapes(3) {
             v.push(format!("zst {}x{}", c, r));
             if c > 0 {
@@ -102,6 +102,16 @@ fn run_receiver(rd: &Recv, ctx: &mut Ctx) {
             }
         }
     }
+    // row (and column) indices whose product with a stride wraps back into the parent's buffer
+    let wrapping: Vec<usize> = huge_for_mul(&[rd.pc, c.max(1), rd.pc + 1], rd.pc * rd.pr + 1, r.max(c));
+    if nonempty {
+        for &h in &wrapping {
+            coords.push(((0, r - 1), (0, h)));
+            coords.push(((0, h), (c - 1, 0)));
+            coords.push(((h, 0), (0, 0)));
+            coords.push(((0, 0), (h, r - 1)));
+        }
+    }
     for h in huge_fixed() {
         coords.push(((h, 0), (0, 0)));
         coords.push(((0, h), (0, 0)));
@@ -131,8 +141,20 @@ fn run_receiver(rd: &Recv, ctx: &mut Ctx) {
         );
     }
     for (name, dim, vals) in [("swap_rows", r, &hr), ("swap_cols", c, &hc), ("row_pair_mut", r, &hr)] {
+        let mut pairs: Vec<(usize, usize)> = Vec::new();
         for &i in vals.iter() {
             for &j in vals.iter() {
+                pairs.push((i, j));
+            }
+        }
+        for &h in &wrapping {
+            for i in 0..dim {
+                pairs.push((i, h));
+                pairs.push((h, i));
+            }
+        }
+        {
+            for (i, j) in pairs {
                 ctx.case(
                     || format!("{} {}({},{})", rd.enc(), name, i, j),
                     |cs| {
@@ -141,6 +163,10 @@ fn run_receiver(rd: &Recv, ctx: &mut Ctx) {
                         }
                         let mut p = parent_kt(rd.pc, rd.pr);
                         let before = model_of_kt(&p);
+                        if rd.kind == super::recv::RK::OwnedSpare {
+                            // the spare capacity is reserved (and the buffer moved) before the address is taken
+                            toodee::TooDee::reserve(&mut p, rd.pc * 2 + 3);
+                        }
                         let base = p.data().as_ptr() as usize;
                         let mut valid = i < dim && j < dim;
                         let mut expect = before.clone();
